@@ -12,8 +12,8 @@ CFG = {
                   "cache updates (address cache, account name, extendAddresses indices, imports, sync state). These are "
                   "reported as findings with stable oracle keys (C08 key=rollback.*); the theorems that hold are proved, "
                   "the others carry explicit hypotheses.",
-    "lean_props": ["BtcwVerif.Props.C08"],
-    "engines": ["addrmgr-lock"],
+    "lean_props": ["BtcwVerif.Props.C08", "BtcwVerif.Props.C08w"],
+    "engines": ["addrmgr-lock", "wallet-restart"],
     "trusted_base": COMMON_TB + [
         "hand-written model BtcwVerif/Model/AddrLock.lean (tied by differential run)",
         "bbolt transaction atomicity and OnCommit semantics (C11's assumption): commit handlers run only after a successful commit",
